@@ -143,7 +143,7 @@ def finish(prop, tier, seed, obligations, meta, t0, confirm=None):
     counted = [o for o in obligations if not o.bounded]
     bounded = [o for o in obligations if o.bounded]
     refuted = [o for o in obligations if o.status == REFUTED]
-    undecided = [o for o in obligations if o.status == UNDECIDED]
+    undecided = [o for o in obligations if o.status == UNDECIDED and o.kind != "advisory"]
     lines = []
     violations = 0
     announced = []
